@@ -178,8 +178,27 @@ pub fn raw_case(c: &(u8, Vec<u64>, u8, bool), obs: &mut Obs) -> CaseResult {
     }
 }
 
+/// the default-capacity constructors: GlobalDescriptorTable::new() / default() = empty table of capacity 8
+fn default_ctor(_: &u8, obs: &mut Obs) -> CaseResult {
+    let a = GlobalDescriptorTable::new();
+    let b: GlobalDescriptorTable = Default::default();
+    ensure_eq!(raw_entries(&a), vec![0u64], "GlobalDescriptorTable::new() entries");
+    ensure_eq!(raw_entries(&b), vec![0u64], "GlobalDescriptorTable::default() entries");
+    ensure_eq!((a.limit(), b.limit()), (7u16, 7u16), "limit of an empty table");
+    let mut g = GlobalDescriptorTable::new();
+    for i in 0..7u64 {
+        let sel = g.append(Descriptor::UserSegment(i << 45));
+        ensure_eq!(sel.0, (((i + 1) as u16) << 3) | (i & 3) as u16, "selector of append #{} on the default table", i);
+    }
+    ensure!(outcome(|| g.append(Descriptor::UserSegment(0))).is_panic(), "the default table has capacity 8");
+    obs.nontrivial(&1u8);
+    obs.nontrivial(&2u8);
+    Ok(())
+}
+
 pub fn run(run: &mut Run) {
     umh::install();
+    run.exhaustive("default_ctor", "GlobalDescriptorTable::new()/default(): an empty table of capacity 8 (null descriptor, limit 7, 7 appends fit, the 8th panics)", 0u8..1, default_ctor);
     run.assume("lgdt executed in ring 3 traps; its 10-byte operand is read by the harness decoder. Capacities are the const parameters 1, 2, 3, 8, 9, 8192 (monomorphised)");
     let n = run.cases(200_000, 8_000_000);
     run.sub(
